@@ -196,6 +196,22 @@ pub enum Kind {
     ReadLimited,
     /// `AsyncFd::close` of a descriptor handed out by another operation.
     CloseFd,
+    // Second batch.
+    Listen,
+    PeerAddr,
+    SyncData,
+    FAdvise,
+    Allocate,
+    MemAdvise,
+    SpliceTo,
+    SpliceFrom,
+    SendToVectored,
+    OpenTemp,
+    RecvN,
+    ReadNVectored,
+    SendAllVectored,
+    /// `Ring::pollable` of a second ring, submitted to the first.
+    Pollable,
 }
 
 #[derive(Clone, Copy, Debug, PartialEq, Eq)]
@@ -212,6 +228,8 @@ pub enum Class {
     StreamBuf,
     /// Multishot stream of descriptors.
     StreamDesc,
+    /// Multishot stream of units (readiness).
+    StreamUnit,
     /// Single-shot using a pool buffer.
     PoolOne,
     /// Composite: re-issues itself.
@@ -223,17 +241,19 @@ impl Kind {
         use Kind::*;
         match self {
             ReadVec | ReadVecPrefilled | ReadVectored2 | Recv | RecvVectored | RecvFrom
-            | RecvFromVectored | LocalAddr | SockOpt | Statx | WaitId | ReadLimited => Class::Data,
+            | RecvFromVectored | LocalAddr | SockOpt | Statx | WaitId | ReadLimited | PeerAddr => Class::Data,
             WriteVec | WriteStatic | WriteString | WriteBoxed | WriteArc | WriteVectored2
             | WriteVectoredTuple | Send | SendTo | SendVectored | Connect | Bind | SetSockOpt
-            | CreateDir | Rename | RemoveFile | Fsync | Truncate | Shutdown | CloseFd => Class::Plain,
+            | CreateDir | Rename | RemoveFile | Fsync | Truncate | Shutdown | CloseFd | Listen | SyncData | FAdvise
+            | Allocate | MemAdvise | SpliceTo | SpliceFrom | SendToVectored => Class::Plain,
             SendZc | SendToZc | SendVectoredZc => Class::TwoStep,
             ReadPool | RecvPool => Class::PoolOne,
             MultishotRead | MultishotRecv => Class::StreamBuf,
             MultishotAccept => Class::StreamDesc,
             Accept | AcceptNoAddr | OpenFile | OpenDirect | Socket | SocketDirect | Pipe
-            | PipeDirect | ToDirect => Class::Desc,
-            ReadN | WriteAll | WriteAllVectored | SendAll => Class::Composite,
+            | PipeDirect | ToDirect | OpenTemp => Class::Desc,
+            ReadN | WriteAll | WriteAllVectored | SendAll | RecvN | ReadNVectored | SendAllVectored => Class::Composite,
+            Pollable => Class::StreamUnit,
         }
     }
 
@@ -245,6 +265,7 @@ impl Kind {
             ReadVec | ReadVecPrefilled | ReadVectored2 | Recv | RecvVectored | RecvFrom | RecvFromVectored | ReadLimited
                 | WriteVec | WriteStatic | WriteString | WriteBoxed | WriteArc | WriteVectored2 | WriteVectoredTuple
                 | Send | SendTo | SendVectored | ReadPool | RecvPool | ReadN | WriteAll | WriteAllVectored | SendAll
+                | SpliceTo | SpliceFrom | SendToVectored | RecvN | ReadNVectored | SendAllVectored
         )
     }
 
@@ -257,7 +278,7 @@ impl Kind {
     }
 
     pub fn is_stream(self) -> bool {
-        matches!(self.class(), Class::StreamBuf | Class::StreamDesc)
+        matches!(self.class(), Class::StreamBuf | Class::StreamDesc | Class::StreamUnit)
     }
 }
 
@@ -372,6 +393,48 @@ pub fn make(kind: Kind, env: &Env<'_>) -> Op {
         WriteAllVectored => single(fd.write_all_vectored([data(n, 2), data(n + 1, 3)]), |(): (), _| "unit".to_string()),
         SendAll => single(fd.send_all(data(n, 5)), |(): (), _| "unit".to_string()),
         CloseFd => unreachable!("CloseFd is made with make_close"),
+        Listen => single(fd.listen(16 + n as u32), |(): (), _| "unit".to_string()),
+        PeerAddr => single(fd.peer_addr::<SocketAddr>(), |a: SocketAddr, _| format!("addr:{a}")),
+        SyncData => single(fd.sync_data(), |(): (), _| "unit".to_string()),
+        FAdvise => single(fd.advise(4096, 8192, a10::fs::AdviseFlag::WILL_NEED), |(): (), _| "unit".to_string()),
+        Allocate => single(fd.allocate(512, 1024), |(): (), _| "unit".to_string()),
+        MemAdvise => single(
+            a10::mem::advise(env.sq.clone(), 0x7000_0000usize as *mut (), 4096, a10::mem::AdviseFlag::DONT_NEED),
+            |(): (), _| "unit".to_string(),
+        ),
+        SpliceTo => single(fd.splice_to(unsafe { std::os::fd::BorrowedFd::borrow_raw(1) }, 64 + n as u32), |c: usize, _| format!("n:{c}")),
+        SpliceFrom => single(fd.splice_from(unsafe { std::os::fd::BorrowedFd::borrow_raw(0) }, 32 + n as u32), |c: usize, _| format!("n:{c}")),
+        SendToVectored => single(fd.send_to_vectored([data(n, 2), data(n, 4)], v4(n)), |c: usize, _| format!("n:{c}")),
+        OpenTemp => single(
+            a10::fs::OpenOptions::new().write().open_temp_file(env.sq.clone(), PathBuf::from("/verif-simk/tmpdir")),
+            |f: AsyncFd, h| fd_str(f, h),
+        ),
+        RecvN => single(fd.recv_n(Vec::with_capacity(10), 6), |b: Vec<u8>, _| format!("bytes:{}", hex(&b))),
+        ReadNVectored => single(fd.read_n_vectored([Vec::with_capacity(3), Vec::with_capacity(5)], 6), |b: [Vec<u8>; 2], _| {
+            format!("bytes:{}|{}", hex(&b[0]), hex(&b[1]))
+        }),
+        SendAllVectored => single(fd.send_all_vectored([data(n, 2), data(n + 1, 3)]), |(): (), _| "unit".to_string()),
+        Pollable => {
+            // The watched ring lives (and is torn down) with the operation.
+            let other = a10::Ring::config().with_submission_queue_size(1).build().expect("second ring");
+            let it = other.pollable(env.sq.clone());
+            let mut it = Box::pin(it);
+            let held = talloc::untracked(Held::new_untracked);
+            Op {
+                poller: Box::new(move |cx| {
+                    let _keep = &other;
+                    match it.as_mut().poll_next(cx) {
+                        Poll::Pending => Poll::Pending,
+                        Poll::Ready(None) => Poll::Ready(None),
+                        Poll::Ready(Some(Ok(()))) => Poll::Ready(Some(talloc::untracked(|| "unit".to_string()))),
+                        Poll::Ready(Some(Err(e))) => Poll::Ready(Some(talloc::untracked(|| err_str(&e)))),
+                    }
+                }),
+                stream: true,
+                held: held.fds,
+                bufs: held.bufs,
+            }
+        }
     })
 }
 
